@@ -58,3 +58,15 @@ Lemma bar_exclusive scripts sched t u :
   let s := run step sched (init scripts) in
   inside (t_pc (ts s t)) = true -> inside (t_pc (ts s u)) = true -> t = u.
 Proof. intros s A B. destruct (bar_inv scripts sched) as [H1 _]. pose proof (H1 _ A). pose proof (H1 _ B). congruence. Qed.
+
+(* a guarded function that panics does not keep the lock: from the end of fn the deferred Unlock is
+   the only continuation, it cannot block, and it leaves the lock free -- whatever fn did *)
+Lemma bar_panic_releases s t :
+  (t_pc (ts s t) = FnE -> gate_open (open s) (t_gate (ts s t)) = true ->
+     exists s', step (Thr t) s = Some s' /\ t_pc (ts s' t) = BUnlock /\ lock s' = lock s) /\
+  (t_pc (ts s t) = BUnlock -> exists s', step (Thr t) s = Some s' /\ lock s' = None /\ t_pc (ts s' t) = Idle).
+Proof.
+  split; intros Hpc; unfold step; rewrite Hpc.
+  - intros ->. eexists. split; [reflexivity|]. simpl. rewrite upd_same. auto.
+  - eexists. split; [reflexivity|]. simpl. rewrite upd_same. auto.
+Qed.
